@@ -300,6 +300,12 @@ def judge(run, cid, w, frame, cmdline, code, exc, before, after, rec, crashed=Fa
             p = os.path.normpath(os.path.join(w.dir, rel))
             name = os.path.basename(p)
             if p in asc:
+                if what == "added" and p == frame["root_asc"] and after[rel][0] == "d" and not crashed and not any(k.startswith(rel + os.sep) for k in after):
+                    # the folder may be created "where none exists" for the new manifest and chain; a run that ends (with
+                    # any exit code) leaving just an empty ascmhl folder has added neither, and every later command then
+                    # refuses the root (exit 32)
+                    bad(what, rel, "create/empty-ascmhl-folder-left", "a new ascmhl folder only together with the manifest and chain file written into it")
+                    continue
                 if what == "mtime" or (what == "added" and p == frame["root_asc"] and after[rel][0] == "d"):
                     continue
                 bad(what, rel, f"create/ascmhl-folder/{what}", "an ascmhl folder is only created in the root or gets entries added")
@@ -696,6 +702,8 @@ def create_ops(w, stride, salt):
     ops = [("plain", [], "abs", None), ("md5-v", ["-h", "md5", "-v"], "abs", None)]
     if f0:
         ops.append(("sf", ["-h", "md5", "-sf", os.path.join(R, f0)], "abs", None))
+    # a create that aborts while writing (lxml refuses the control character): must leave nothing behind, in every world
+    ops.append(("comment-control-char", ["-h", "md5", "--comment", "bell\x07"], "abs", None))
     core, ops = ops, []
     ops += [
         ("n", ["-n", "-h", "xxh64"], "abs", None),
@@ -713,7 +721,6 @@ def create_ops(w, stride, salt):
         ("badoption", ["--frobnicate"], "abs", None),
         ("sf-missing", ["-sf", os.path.join(R, "no", "such")], "abs", None),
         ("ii-missing", ["-ii", os.path.join(w.ext, "no-such-file")], "abs", None),
-        ("comment-control-char", ["-h", "md5", "--comment", "bell\x07"], "abs", None),
     ]
     for how in ("slash", "rel", "dot", "dotdot", "symlink", "cwdrel"):
         ops.append((f"plain@{how}", ["-h", "md5"], how, None))
